@@ -37,6 +37,11 @@ type instFn func(in []<-chan float64) ([]<-chan float64, int)
 
 var indicators = map[string]indFn{}
 
+// tracked is the instance built by the most recent indCtors call (used by RECONF to reach its exported fields)
+var tracked any
+
+func track(x any) { tracked = x }
+
 func init() {
 	for name, ctor := range indCtors {
 		ctor := ctor
@@ -51,6 +56,7 @@ var indCtors = map[string]func(n []int, f []float64) instFn{
 	"Apo": func(n []int, f []float64) instFn {
 		x := trend.NewApo[float64]()
 		x.FastPeriod, x.SlowPeriod = n[0], n[1]
+		track(x)
 		return func(in []<-chan float64) ([]<-chan float64, int) {
 			return outs(x.Compute(in[0])), -1
 		}
@@ -58,6 +64,7 @@ var indCtors = map[string]func(n []int, f []float64) instFn{
 	"Aroon": func(n []int, f []float64) instFn {
 		x := trend.NewAroon[float64]()
 		x.Period = n[0]
+		track(x)
 		return func(in []<-chan float64) ([]<-chan float64, int) {
 			a, b := x.Compute(in[0], in[1])
 			return outs(a, b), -1
@@ -65,12 +72,14 @@ var indCtors = map[string]func(n []int, f []float64) instFn{
 	},
 	"Bop": func(n []int, f []float64) instFn {
 		x := trend.NewBop[float64]()
+		track(x)
 		return func(in []<-chan float64) ([]<-chan float64, int) {
 			return outs(x.Compute(in[0], in[1], in[2], in[3])), -1
 		}
 	},
 	"Cci": func(n []int, f []float64) instFn {
 		x := trend.NewCciWithPeriod[float64](n[0])
+		track(x)
 		return func(in []<-chan float64) ([]<-chan float64, int) {
 			return outs(x.Compute(in[0], in[1], in[2])), x.IdlePeriod()
 		}
@@ -78,18 +87,21 @@ var indCtors = map[string]func(n []int, f []float64) instFn{
 	"Dema": func(n []int, f []float64) instFn {
 		x := trend.NewDema[float64]()
 		x.Ema1.Period, x.Ema2.Period = n[0], n[1]
+		track(x)
 		return func(in []<-chan float64) ([]<-chan float64, int) {
 			return outs(x.Compute(in[0])), x.IdlePeriod()
 		}
 	},
 	"Ema": func(n []int, f []float64) instFn {
 		x := trend.NewEmaWithPeriod[float64](n[0])
+		track(x)
 		return func(in []<-chan float64) ([]<-chan float64, int) {
 			return outs(x.Compute(in[0])), x.IdlePeriod()
 		}
 	},
 	"Envelope": func(n []int, f []float64) instFn {
 		x := trend.NewEnvelope[float64](maOf(n[0], n[1]), f[0])
+		track(x)
 		return func(in []<-chan float64) ([]<-chan float64, int) {
 			a, b, c := x.Compute(in[0])
 			return outs(a, b, c), x.IdlePeriod()
@@ -97,12 +109,14 @@ var indCtors = map[string]func(n []int, f []float64) instFn{
 	},
 	"Hma": func(n []int, f []float64) instFn {
 		x := trend.NewHmaWithPeriod[float64](n[0])
+		track(x)
 		return func(in []<-chan float64) ([]<-chan float64, int) {
 			return outs(x.Compute(in[0])), x.IdlePeriod()
 		}
 	},
 	"Kama": func(n []int, f []float64) instFn {
 		x := trend.NewKamaWith[float64](n[0], n[1], n[2])
+		track(x)
 		return func(in []<-chan float64) ([]<-chan float64, int) {
 			return outs(x.Compute(in[0])), x.IdlePeriod()
 		}
@@ -110,6 +124,7 @@ var indCtors = map[string]func(n []int, f []float64) instFn{
 	"Kdj": func(n []int, f []float64) instFn {
 		x := trend.NewKdj[float64]()
 		x.MovingMax.Period, x.MovingMin.Period, x.Sma1.Period, x.Sma2.Period = n[0], n[0], n[1], n[2]
+		track(x)
 		return func(in []<-chan float64) ([]<-chan float64, int) {
 			a, b, c := x.Compute(in[0], in[1], in[2])
 			return outs(a, b, c), x.IdlePeriod()
@@ -117,6 +132,7 @@ var indCtors = map[string]func(n []int, f []float64) instFn{
 	},
 	"Macd": func(n []int, f []float64) instFn {
 		x := trend.NewMacdWithPeriod[float64](n[0], n[1], n[2])
+		track(x)
 		return func(in []<-chan float64) ([]<-chan float64, int) {
 			a, b := x.Compute(in[0])
 			return outs(a, b), x.IdlePeriod()
@@ -125,18 +141,21 @@ var indCtors = map[string]func(n []int, f []float64) instFn{
 	"MassIndex": func(n []int, f []float64) instFn {
 		x := trend.NewMassIndex[float64]()
 		x.Ema1.Period, x.Ema2.Period, x.MovingSum.Period = n[0], n[1], n[2]
+		track(x)
 		return func(in []<-chan float64) ([]<-chan float64, int) {
 			return outs(x.Compute(in[0], in[1])), x.IdlePeriod()
 		}
 	},
 	"Mlr": func(n []int, f []float64) instFn {
 		x := trend.NewMlrWithPeriod[float64](n[0])
+		track(x)
 		return func(in []<-chan float64) ([]<-chan float64, int) {
 			return outs(x.Compute(in[0], in[1])), x.IdlePeriod()
 		}
 	},
 	"Mls": func(n []int, f []float64) instFn {
 		x := trend.NewMlsWithPeriod[float64](n[0])
+		track(x)
 		return func(in []<-chan float64) ([]<-chan float64, int) {
 			a, b := x.Compute(in[0], in[1])
 			return outs(a, b), x.IdlePeriod()
@@ -144,36 +163,42 @@ var indCtors = map[string]func(n []int, f []float64) instFn{
 	},
 	"MovingMax": func(n []int, f []float64) instFn {
 		x := trend.NewMovingMaxWithPeriod[float64](n[0])
+		track(x)
 		return func(in []<-chan float64) ([]<-chan float64, int) {
 			return outs(x.Compute(in[0])), x.IdlePeriod()
 		}
 	},
 	"MovingMin": func(n []int, f []float64) instFn {
 		x := trend.NewMovingMinWithPeriod[float64](n[0])
+		track(x)
 		return func(in []<-chan float64) ([]<-chan float64, int) {
 			return outs(x.Compute(in[0])), x.IdlePeriod()
 		}
 	},
 	"MovingSum": func(n []int, f []float64) instFn {
 		x := trend.NewMovingSumWithPeriod[float64](n[0])
+		track(x)
 		return func(in []<-chan float64) ([]<-chan float64, int) {
 			return outs(x.Compute(in[0])), x.IdlePeriod()
 		}
 	},
 	"Rma": func(n []int, f []float64) instFn {
 		x := trend.NewRmaWithPeriod[float64](n[0])
+		track(x)
 		return func(in []<-chan float64) ([]<-chan float64, int) {
 			return outs(x.Compute(in[0])), x.IdlePeriod()
 		}
 	},
 	"Sma": func(n []int, f []float64) instFn {
 		x := trend.NewSmaWithPeriod[float64](n[0])
+		track(x)
 		return func(in []<-chan float64) ([]<-chan float64, int) {
 			return outs(x.Compute(in[0])), x.IdlePeriod()
 		}
 	},
 	"Smma": func(n []int, f []float64) instFn {
 		x := trend.NewSmmaWithPeriod[float64](n[0])
+		track(x)
 		return func(in []<-chan float64) ([]<-chan float64, int) {
 			return outs(x.Compute(in[0])), x.IdlePeriod()
 		}
@@ -181,6 +206,7 @@ var indCtors = map[string]func(n []int, f []float64) instFn{
 	"Tema": func(n []int, f []float64) instFn {
 		x := trend.NewTema[float64]()
 		x.Ema1.Period, x.Ema2.Period, x.Ema3.Period = n[0], n[1], n[2]
+		track(x)
 		return func(in []<-chan float64) ([]<-chan float64, int) {
 			return outs(x.Compute(in[0])), x.IdlePeriod()
 		}
@@ -188,6 +214,7 @@ var indCtors = map[string]func(n []int, f []float64) instFn{
 	"Trima": func(n []int, f []float64) instFn {
 		x := trend.NewTrima[float64]()
 		x.Period = n[0]
+		track(x)
 		return func(in []<-chan float64) ([]<-chan float64, int) {
 			return outs(x.Compute(in[0])), x.IdlePeriod()
 		}
@@ -195,18 +222,21 @@ var indCtors = map[string]func(n []int, f []float64) instFn{
 	"Trix": func(n []int, f []float64) instFn {
 		x := trend.NewTrix[float64]()
 		x.Period = n[0]
+		track(x)
 		return func(in []<-chan float64) ([]<-chan float64, int) {
 			return outs(x.Compute(in[0])), x.IdlePeriod()
 		}
 	},
 	"Tsi": func(n []int, f []float64) instFn {
 		x := trend.NewTsiWith[float64](n[0], n[1])
+		track(x)
 		return func(in []<-chan float64) ([]<-chan float64, int) {
 			return outs(x.Compute(in[0])), x.IdlePeriod()
 		}
 	},
 	"TypicalPrice": func(n []int, f []float64) instFn {
 		x := trend.NewTypicalPrice[float64]()
+		track(x)
 		return func(in []<-chan float64) ([]<-chan float64, int) {
 			return outs(x.Compute(in[0], in[1], in[2])), -1
 		}
@@ -214,18 +244,21 @@ var indCtors = map[string]func(n []int, f []float64) instFn{
 	"Vwma": func(n []int, f []float64) instFn {
 		x := trend.NewVwma[float64]()
 		x.Period = n[0]
+		track(x)
 		return func(in []<-chan float64) ([]<-chan float64, int) {
 			return outs(x.Compute(in[0], in[1])), x.IdlePeriod()
 		}
 	},
 	"WeightedClose": func(n []int, f []float64) instFn {
 		x := trend.NewWeightedClose[float64]()
+		track(x)
 		return func(in []<-chan float64) ([]<-chan float64, int) {
 			return outs(x.Compute(in[0], in[1], in[2])), x.IdlePeriod()
 		}
 	},
 	"Wma": func(n []int, f []float64) instFn {
 		x := trend.NewWmaWith[float64](n[0])
+		track(x)
 		return func(in []<-chan float64) ([]<-chan float64, int) {
 			return outs(x.Compute(in[0])), x.IdlePeriod()
 		}
@@ -234,6 +267,7 @@ var indCtors = map[string]func(n []int, f []float64) instFn{
 	"AwesomeOscillator": func(n []int, f []float64) instFn {
 		x := momentum.NewAwesomeOscillator[float64]()
 		x.ShortSma.Period, x.LongSma.Period = n[0], n[1]
+		track(x)
 		return func(in []<-chan float64) ([]<-chan float64, int) {
 			return outs(x.Compute(in[0], in[1])), x.IdlePeriod()
 		}
@@ -241,6 +275,7 @@ var indCtors = map[string]func(n []int, f []float64) instFn{
 	"ChaikinOscillator": func(n []int, f []float64) instFn {
 		x := momentum.NewChaikinOscillator[float64]()
 		x.ShortEma.Period, x.LongEma.Period = n[0], n[1]
+		track(x)
 		return func(in []<-chan float64) ([]<-chan float64, int) {
 			a, b := x.Compute(in[0], in[1], in[2], in[3])
 			return outs(a, b), x.IdlePeriod()
@@ -252,6 +287,7 @@ var indCtors = map[string]func(n []int, f []float64) instFn{
 		x.BaseMax.Period, x.BaseMin.Period = n[1], n[1]
 		x.LeadingMax.Period, x.LeadingMin.Period = n[2], n[2]
 		x.LaggingPeriod = n[3]
+		track(x)
 		return func(in []<-chan float64) ([]<-chan float64, int) {
 			a, b, c, d, e := x.Compute(in[0], in[1], in[2])
 			return outs(a, b, c, d, e), x.IdlePeriod()
@@ -260,6 +296,7 @@ var indCtors = map[string]func(n []int, f []float64) instFn{
 	"Ppo": func(n []int, f []float64) instFn {
 		x := momentum.NewPpo[float64]()
 		x.ShortEma.Period, x.LongEma.Period, x.SignalEma.Period = n[0], n[1], n[2]
+		track(x)
 		return func(in []<-chan float64) ([]<-chan float64, int) {
 			a, b, c := x.Compute(in[0])
 			return outs(a, b, c), x.IdlePeriod()
@@ -268,6 +305,7 @@ var indCtors = map[string]func(n []int, f []float64) instFn{
 	"Pvo": func(n []int, f []float64) instFn {
 		x := momentum.NewPvo[float64]()
 		x.ShortEma.Period, x.LongEma.Period, x.SignalEma.Period = n[0], n[1], n[2]
+		track(x)
 		return func(in []<-chan float64) ([]<-chan float64, int) {
 			a, b, c := x.Compute(in[0])
 			return outs(a, b, c), x.IdlePeriod()
@@ -276,12 +314,14 @@ var indCtors = map[string]func(n []int, f []float64) instFn{
 	"Qstick": func(n []int, f []float64) instFn {
 		x := momentum.NewQstick[float64]()
 		x.Sma.Period = n[0]
+		track(x)
 		return func(in []<-chan float64) ([]<-chan float64, int) {
 			return outs(x.Compute(in[0], in[1])), x.IdlePeriod()
 		}
 	},
 	"Rsi": func(n []int, f []float64) instFn {
 		x := momentum.NewRsiWithPeriod[float64](n[0])
+		track(x)
 		return func(in []<-chan float64) ([]<-chan float64, int) {
 			return outs(x.Compute(in[0])), x.IdlePeriod()
 		}
@@ -289,6 +329,7 @@ var indCtors = map[string]func(n []int, f []float64) instFn{
 	"StochasticOscillator": func(n []int, f []float64) instFn {
 		x := momentum.NewStochasticOscillator[float64]()
 		x.Max.Period, x.Min.Period, x.Sma.Period = n[0], n[0], n[1]
+		track(x)
 		return func(in []<-chan float64) ([]<-chan float64, int) {
 			a, b := x.Compute(in[0], in[1], in[2])
 			return outs(a, b), x.IdlePeriod()
@@ -296,6 +337,7 @@ var indCtors = map[string]func(n []int, f []float64) instFn{
 	},
 	"StochasticRsi": func(n []int, f []float64) instFn {
 		x := momentum.NewStochasticRsiWithPeriod[float64](n[0])
+		track(x)
 		return func(in []<-chan float64) ([]<-chan float64, int) {
 			return outs(x.Compute(in[0])), x.IdlePeriod()
 		}
@@ -303,6 +345,7 @@ var indCtors = map[string]func(n []int, f []float64) instFn{
 	"WilliamsR": func(n []int, f []float64) instFn {
 		x := momentum.NewWilliamsR[float64]()
 		x.Max.Period, x.Min.Period = n[0], n[0]
+		track(x)
 		return func(in []<-chan float64) ([]<-chan float64, int) {
 			return outs(x.Compute(in[0], in[1], in[2])), x.IdlePeriod()
 		}
@@ -311,6 +354,7 @@ var indCtors = map[string]func(n []int, f []float64) instFn{
 	"AccelerationBands": func(n []int, f []float64) instFn {
 		x := volatility.NewAccelerationBands[float64]()
 		x.Period = n[0]
+		track(x)
 		return func(in []<-chan float64) ([]<-chan float64, int) {
 			a, b, c := x.Compute(in[0], in[1], in[2])
 			return outs(a, b, c), x.IdlePeriod()
@@ -318,6 +362,7 @@ var indCtors = map[string]func(n []int, f []float64) instFn{
 	},
 	"Atr": func(n []int, f []float64) instFn {
 		x := volatility.NewAtrWithMa[float64](maOf(n[0], n[1]))
+		track(x)
 		return func(in []<-chan float64) ([]<-chan float64, int) {
 			return outs(x.Compute(in[0], in[1], in[2])), x.IdlePeriod()
 		}
@@ -325,12 +370,14 @@ var indCtors = map[string]func(n []int, f []float64) instFn{
 	"BollingerBandWidth": func(n []int, f []float64) instFn {
 		x := volatility.NewBollingerBandWidth[float64]()
 		x.BollingerBands.Period = n[0]
+		track(x)
 		return func(in []<-chan float64) ([]<-chan float64, int) {
 			return outs(x.Compute(in[0])), x.IdlePeriod()
 		}
 	},
 	"BollingerBands": func(n []int, f []float64) instFn {
 		x := volatility.NewBollingerBandsWithPeriod[float64](n[0])
+		track(x)
 		return func(in []<-chan float64) ([]<-chan float64, int) {
 			a, b, c := x.Compute(in[0])
 			return outs(a, b, c), x.IdlePeriod()
@@ -339,6 +386,7 @@ var indCtors = map[string]func(n []int, f []float64) instFn{
 	"ChandelierExit": func(n []int, f []float64) instFn {
 		x := volatility.NewChandelierExit[float64]()
 		x.Period, x.Multiplier = n[0], f[0]
+		track(x)
 		return func(in []<-chan float64) ([]<-chan float64, int) {
 			a, b := x.Compute(in[0], in[1], in[2])
 			return outs(a, b), x.IdlePeriod()
@@ -346,6 +394,7 @@ var indCtors = map[string]func(n []int, f []float64) instFn{
 	},
 	"DonchianChannel": func(n []int, f []float64) instFn {
 		x := volatility.NewDonchianChannelWithPeriod[float64](n[0])
+		track(x)
 		return func(in []<-chan float64) ([]<-chan float64, int) {
 			a, b, c := x.Compute(in[0])
 			return outs(a, b, c), x.IdlePeriod()
@@ -353,6 +402,7 @@ var indCtors = map[string]func(n []int, f []float64) instFn{
 	},
 	"KeltnerChannel": func(n []int, f []float64) instFn {
 		x := volatility.NewKeltnerChannelWithPeriod[float64](n[0])
+		track(x)
 		return func(in []<-chan float64) ([]<-chan float64, int) {
 			a, b, c := x.Compute(in[0], in[1], in[2])
 			return outs(a, b, c), x.IdlePeriod()
@@ -360,24 +410,28 @@ var indCtors = map[string]func(n []int, f []float64) instFn{
 	},
 	"MovingStd": func(n []int, f []float64) instFn {
 		x := volatility.NewMovingStdWithPeriod[float64](n[0])
+		track(x)
 		return func(in []<-chan float64) ([]<-chan float64, int) {
 			return outs(x.Compute(in[0])), x.IdlePeriod()
 		}
 	},
 	"PercentB": func(n []int, f []float64) instFn {
 		x := volatility.NewPercentBWithPeriod[float64](n[0])
+		track(x)
 		return func(in []<-chan float64) ([]<-chan float64, int) {
 			return outs(x.Compute(in[0])), x.IdlePeriod()
 		}
 	},
 	"Po": func(n []int, f []float64) instFn {
 		x := volatility.NewPoWithPeriod[float64](n[0])
+		track(x)
 		return func(in []<-chan float64) ([]<-chan float64, int) {
 			return outs(x.Compute(in[0], in[1], in[2])), x.IdlePeriod()
 		}
 	},
 	"SuperTrend": func(n []int, f []float64) instFn {
 		x := volatility.NewSuperTrendWithMa[float64](maOf(n[0], n[1]), f[0])
+		track(x)
 		return func(in []<-chan float64) ([]<-chan float64, int) {
 			return outs(x.Compute(in[0], in[1], in[2])), x.IdlePeriod()
 		}
@@ -385,6 +439,7 @@ var indCtors = map[string]func(n []int, f []float64) instFn{
 	"UlcerIndex": func(n []int, f []float64) instFn {
 		x := volatility.NewUlcerIndex[float64]()
 		x.Period = n[0]
+		track(x)
 		return func(in []<-chan float64) ([]<-chan float64, int) {
 			return outs(x.Compute(in[0])), x.IdlePeriod()
 		}
@@ -392,24 +447,28 @@ var indCtors = map[string]func(n []int, f []float64) instFn{
 	// volume
 	"Ad": func(n []int, f []float64) instFn {
 		x := volume.NewAd[float64]()
+		track(x)
 		return func(in []<-chan float64) ([]<-chan float64, int) {
 			return outs(x.Compute(in[0], in[1], in[2], in[3])), x.IdlePeriod()
 		}
 	},
 	"Cmf": func(n []int, f []float64) instFn {
 		x := volume.NewCmfWithPeriod[float64](n[0])
+		track(x)
 		return func(in []<-chan float64) ([]<-chan float64, int) {
 			return outs(x.Compute(in[0], in[1], in[2], in[3])), x.IdlePeriod()
 		}
 	},
 	"Emv": func(n []int, f []float64) instFn {
 		x := volume.NewEmvWithPeriod[float64](n[0])
+		track(x)
 		return func(in []<-chan float64) ([]<-chan float64, int) {
 			return outs(x.Compute(in[0], in[1], in[2])), x.IdlePeriod()
 		}
 	},
 	"Fi": func(n []int, f []float64) instFn {
 		x := volume.NewFiWithPeriod[float64](n[0])
+		track(x)
 		return func(in []<-chan float64) ([]<-chan float64, int) {
 			return outs(x.Compute(in[0], in[1])), x.IdlePeriod()
 		}
@@ -417,18 +476,21 @@ var indCtors = map[string]func(n []int, f []float64) instFn{
 	"Mfi": func(n []int, f []float64) instFn {
 		x := volume.NewMfi[float64]()
 		x.Sum.Period = n[0]
+		track(x)
 		return func(in []<-chan float64) ([]<-chan float64, int) {
 			return outs(x.Compute(in[0], in[1], in[2], in[3])), x.IdlePeriod()
 		}
 	},
 	"Mfm": func(n []int, f []float64) instFn {
 		x := volume.NewMfm[float64]()
+		track(x)
 		return func(in []<-chan float64) ([]<-chan float64, int) {
 			return outs(x.Compute(in[0], in[1], in[2])), x.IdlePeriod()
 		}
 	},
 	"Mfv": func(n []int, f []float64) instFn {
 		x := volume.NewMfv[float64]()
+		track(x)
 		return func(in []<-chan float64) ([]<-chan float64, int) {
 			return outs(x.Compute(in[0], in[1], in[2], in[3])), x.IdlePeriod()
 		}
@@ -436,24 +498,28 @@ var indCtors = map[string]func(n []int, f []float64) instFn{
 	"Nvi": func(n []int, f []float64) instFn {
 		x := volume.NewNvi[float64]()
 		x.Initial = f[0]
+		track(x)
 		return func(in []<-chan float64) ([]<-chan float64, int) {
 			return outs(x.Compute(in[0], in[1])), x.IdlePeriod()
 		}
 	},
 	"Obv": func(n []int, f []float64) instFn {
 		x := volume.NewObv[float64]()
+		track(x)
 		return func(in []<-chan float64) ([]<-chan float64, int) {
 			return outs(x.Compute(in[0], in[1])), x.IdlePeriod()
 		}
 	},
 	"Vpt": func(n []int, f []float64) instFn {
 		x := volume.NewVpt[float64]()
+		track(x)
 		return func(in []<-chan float64) ([]<-chan float64, int) {
 			return outs(x.Compute(in[0], in[1])), x.IdlePeriod()
 		}
 	},
 	"Vwap": func(n []int, f []float64) instFn {
 		x := volume.NewVwapWithPeriod[float64](n[0])
+		track(x)
 		return func(in []<-chan float64) ([]<-chan float64, int) {
 			return outs(x.Compute(in[0], in[1])), x.IdlePeriod()
 		}
